@@ -30,29 +30,29 @@ type Customer struct {
 // gomacro:SQL ADD UNIQUE(Sku, Variant)
 // gomacro:SQL _SELECT KEY(Variant)
 type Product struct {
-	Sku        string
-	Id         int64
-	Variant    int16
-	Price      float64
-	Currency   money.Currency
-	Dims       Dimensions
-	Labels     Labels
-	Scores     Scores
-	Flags      Flags
-	Ratings    Ratings
-	Attributes Attributes
-	Picture    []byte
+	Sku          string
+	Id           int64
+	Variant      int16
+	Price        float64
+	Currency     money.Currency
+	Dims         Dimensions
+	Labels       Labels
+	Scores       Scores
+	Flags        Flags
+	Ratings      Ratings
+	Attributes   Attributes
+	Picture      []byte
 	Discontinued sql.NullTime
-	Note       sql.NullString
-	guard      Tier `gomacro-sql-guard:"#[Tier.Basic]"`
+	Note         sql.NullString
+	guard        Tier `gomacro-sql-guard:"#[Tier.Basic]"`
 }
 
 // Order references a customer (cascade) and optionally a referrer (set null).
 // gomacro:SQL _SELECT KEY(IdCustomer, Status)
 type Order struct {
 	Id         int64
-	IdCustomer IdCustomer  `gomacro-sql-on-delete:"CASCADE"`
-	Referrer   OptCustomer `gomacro-sql-foreign:"Customer" gomacro-sql-on-delete:"SET NULL"`
+	IdCustomer IdCustomer    `gomacro-sql-on-delete:"CASCADE"`
+	Referrer   OptCustomer   `gomacro-sql-foreign:"Customer" gomacro-sql-on-delete:"SET NULL"`
 	Gift       sql.NullInt64 `gomacro-sql-foreign:"Product"`
 	Status     Status
 	History    StatusLog
